@@ -43,7 +43,7 @@ prop(
     "C18",
     ["DivanModel.Props.C18"],
     [lab("fmt", 20000, 2000000), lab("paint", 800, 20000)],
-    level_text="Theorems for every picosecond value (unbounded Nat, so all of u128): the unit is the largest not exceeding the value (ns below 1 ns), and the printed number equals floor(value*10^k/unit)/10^k with k = max(0, 4-d), trailing zeros removed (fmt_eq_spec: the code's integer pre-scaling by 10^4 followed by format_f64's string surgery equals the truthful truncation). format_f64 is modelled as a function on the decimal text Rust produced and proved to be pure truncation (formatDecimal_is_truncation) with no trailing zero left. Sizes/throughputs: scale selection and truncation are modelled; the two f64 operations are checked per case against exact rationals (relative 2^-48).",
+    level_text="Theorems for every picosecond value (unbounded Nat, so all of u128): the unit is the largest not exceeding the value (ns below 1 ns), and the printed number equals floor(value*10^k/unit)/10^k with k = max(0, 4-d), trailing zeros removed (fmt_eq_spec: the code's integer pre-scaling by 10^4 followed by format_f64's string surgery equals the truthful truncation). format_f64 is modelled as a function on the decimal text Rust produced and proved to be pure truncation (formatDecimal_is_truncation) with no trailing zero left. Sizes/throughputs: scale selection and truncation are modelled; the two f64 operations are checked per case against exact rationals (relative 2^-48). Round 3: the paint lab (both byte formats, real TreePainter) also serves this property: every cell computed with the configured format must be what is printed under the benchmark.",
     level_note="Trusted: Lean kernel; Rust's f64 Display (shortest round-trip decimal) supplies the decimal text the model works on; bridging assumption '(N as f64 / 1e4).to_string() is the exact decimal of N/10^4 for N < 10^8' is validated by the lab (every fd case exercises it), not proved; IEEE arithmetic of sizes/throughputs is validated per case, not proved.",
     assumptions=["f64 Display/FromStr and IEEE division are Rust's; Lean's Float is opaque to proof"],
 )
@@ -70,16 +70,16 @@ prop(
 
 prop(
     "C13",
-    ["DivanModel.Props.C13"],
+    ["DivanModel.Props.C13", "DivanModel.Props.SpecLinks"],
     [lab("reg", 1500, 40000)],
-    level_text="Theorems on the front-end model: for every sequence of include/exclude calls (any order/interleaving, through SplitVec::insert's element-moving) a path is selected iff no skip filter matches and (no positive filter exists or one matches); exact filters are whole-string equality; retain keeps exactly the selected cases (per argument), in order, and leaves no parent without a case below it (retainList_cases, retainList_noEmpty, selected_cases_iff). Tied to the code by the registry lab: random programs x 0-4 positive and 0-4 skip filters (exact or regex, built from real paths, inner-node-only, matching nothing) via CLI and builder; executed set and printed tree compared with the model, and the rule re-evaluated on the implementation's invocation log from the abstract program.",
+    level_text="Theorems on the front-end model: for every sequence of include/exclude calls (any order/interleaving, through SplitVec::insert's element-moving) a path is selected iff no skip filter matches and (no positive filter exists or one matches); exact filters are whole-string equality; retain keeps exactly the selected cases (per argument), in order, and leaves no parent without a case below it (retainList_cases, retainList_noEmpty, selected_cases_iff). Tied to the code by the registry lab: random programs x 0-4 positive and 0-4 skip filters (exact or regex, built from real paths, inner-node-only, matching nothing) via CLI and builder; executed set and printed tree compared with the model, and the rule re-evaluated on the implementation's invocation log from the abstract program. Round 3: filters with commas, parentheses and generic type names (tuple-rendered arguments, instantiation paths); Props/SpecLinks proves the lab's selection rule equal to the model's FilterSet::is_match.",
     level_note="Trusted: Lean kernel; registry lab; regex-lite is not modelled - the generator emits a small grammar (literals, '.', ^, $, alternation) that the Lean driver re-implements; clap parsing exercised only.",
     trusted=REG_TRUST,
 )
 
 prop(
     "C15",
-    ["DivanModel.Props.C15"],
+    ["DivanModel.Props.C15", "DivanModel.Props.SpecLinks"],
     [lab("reg", 1500, 40000), lab("ovw", 3000, 100000)],
     level_text="Theorems: BenchOptions::overwrite is field-by-field for all eleven fields; for every chain of levels and every field independently the effective value is run time, else the innermost level that sets this very field (resolve_first_some), other fields cannot mask it (field_independence); thread counts are strictly increasing and positive after normalisation (0 -> parallelism, sort, dedup); ignore semantics for the three flag settings; a Bencher counter replaces only its own kind. Tied to the code by the `ovw` lab (overwrite on random option pairs) and the registry lab (options at runner/bench/up to 3 group levels, via CLI, DIVAN_* environment and builder; call counts, thread branches, counter rows and (ignored) marks compared with the model and with per-field resolution recomputed from the abstract program).",
     level_note="Trusted: Lean kernel; labs. min_time / skip_ext_time resolution is observable only through the ovw lab (overwrite), not end to end; clap's env fallback exercised, not modelled.",
@@ -88,9 +88,9 @@ prop(
 
 prop(
     "C12",
-    ["DivanModel.Props.C12", "DivanModel.Props.C12Uniq"],
+    ["DivanModel.Props.C12", "DivanModel.Props.C12Uniq", "DivanModel.Props.C12Groups"],
     [lab("reg", 1500, 40000), lab("mac", 480, 9600, timeout=1200)],
-    level_text="Theorems on the tree-building model (EntryList order, from_benches/insert_entry, insert_group): every registered plain benchmark and generic instance becomes exactly one leaf below parents named by its path components (buildTree_leaves, a multiset equality), bench_group entries add no leaf, and the placed-leaf multiset is invariant under any permutation of the registration order (order_independent); at every level of the built tree no two parent nodes carry the same raw name, whatever was registered in whatever order (Props/C12Uniq.buildTree_uniq, uniq_same_node): a module is one node, so a bench_group reaches every benchmark below its module. Tied to the code by the registry lab: entries are pushed into BENCH_ENTRIES/GROUP_ENTRIES in random constructor order exactly as the macro expansion does, the real front end runs, and the executed/listed cases are compared with the model and with the expected case list computed from the abstract program (one per types x consts combination, one per argument, nothing for empty lists). The macro lab renders random programs as Rust source with the real #[divan::bench] / #[divan::bench_group] attributes (raw identifiers, custom names, every option in each of its written forms, types/consts in both parameter orders, literal and external const lists, args as array/vec/reference/iterator of &str, String, i32, f64, bool and a Debug-only type, functions with and without a Bencher), compiles them, and has the child dump what the macros registered - module path, raw and display name, file/line, the BenchOptions, the shape of generic_benches, constructor order - before the real front end runs; registration is compared with the items as written ([C12] spec) and feeds the same front-end model.",
+    level_text="Theorems on the tree-building model (EntryList order, from_benches/insert_entry, insert_group): every registered plain benchmark and generic instance becomes exactly one leaf below parents named by its path components (buildTree_leaves, a multiset equality), bench_group entries add no leaf, and the placed-leaf multiset is invariant under any permutation of the registration order (order_independent); at every level of the built tree no two parent nodes carry the same raw name, whatever was registered in whatever order (Props/C12Uniq.buildTree_uniq, uniq_same_node): a module is one node; the nodes of the tree are exactly the non-empty prefixes of the registered entries' paths (Props/C12Groups.hasNode_fromBenches), insert_group sets the slot of exactly the node 'module path + raw name' and changes no node (slotAt_insertGroup, hasNode_insertGroup), and therefore a bench_group module with a benchmark at or below it always ends up with its group entry in that node (group_reaches_benchmarks_below; the last registered entry wins when several claim one node - finding F7), from where the walk takes the display name and hands the options down (C15). Tied to the code by the registry lab: entries are pushed into BENCH_ENTRIES/GROUP_ENTRIES in random constructor order exactly as the macro expansion does, the real front end runs, and the executed/listed cases are compared with the model and with the expected case list computed from the abstract program (one per types x consts combination, one per argument, nothing for empty lists). The macro lab renders random programs as Rust source with the real #[divan::bench] / #[divan::bench_group] attributes (raw identifiers, custom names, every option in each of its written forms, types/consts in both parameter orders, literal and external const lists, args as array/vec/reference/iterator of &str, String, i32, f64, bool and a Debug-only type, functions with and without a Bencher), compiles them, and has the child dump what the macros registered - module path, raw and display name, file/line, the BenchOptions, the shape of generic_benches, constructor order - before the real front end runs; registration is compared with the items as written ([C12] spec) and feeds the same front-end model.",
     level_note="Trusted: Lean kernel; registry lab; macro lab (the renderer from items to source is the statement of what 'as written' means; rustc, cargo and the linker's .init_array handling are used, not modelled). Name clash F7 is a recorded finding (not generated by the macro lab).",
     trusted=REG_TRUST,
 )
@@ -113,7 +113,7 @@ prop("C01", ["DivanModel.Props.C01"], BENCH_LABS,
      trusted=BENCH_TRUST)
 
 prop("C02", ["DivanModel.Props.C02"], BENCH_LABS + [lab("sbench-p250", 500, 15000, timeout=900)],
-     level_text="Theorems: with the calls removed the two timestamps of a sample are adjacent (only benchmarked calls are timed), generation/counting precede, snapshot and drops follow, for every size/shape/entry; the allocating events between tally clear and snapshot are exactly the calls (allocation window = timed window). The bench lab runs scripted allocations in generator, benchmarked function and destructors through the global AllocProfiler and compares the per-sample allocation figures in Stats (exact IEEE doubles) and the interleaving of clock reads with events.",
+     level_text="Theorems: with the calls removed the two timestamps of a sample are adjacent (only benchmarked calls are timed), generation/counting precede, snapshot and drops follow, for every size/shape/entry; the allocating events between tally clear and snapshot are exactly the calls (allocation window = timed window). The bench lab runs scripted allocations in generator, benchmarked function and destructors through the global AllocProfiler and compares the per-sample allocation figures in Stats (exact IEEE doubles) and the interleaving of clock reads with events. Round 2-3: call-index dependent ('lazy') allocation scripts and a spec that recomputes, from the trace, the allocator operations of the very calls inside each recorded sample; the sbench lab (barrier waits visible) requires both start waits before the start timestamp and the end wait after the end timestamp.",
      level_note="Trusted: Lean kernel; bench lab. The fences of time/fence.rs and out-of-order execution cannot be expressed by an executable model: program order only.",
      trusted=BENCH_TRUST)
 
@@ -122,32 +122,32 @@ prop("C03", ["DivanModel.Props.C03"], BENCH_LABS + [lab("reg", 800, 20000)],
      level_note="Trusted: Lean kernel; labs.", trusted=BENCH_TRUST)
 
 prop("C04", ["DivanModel.Props.C04"], BENCH_LABS,
-     level_text="Theorems for every history of clock readings (non-monotone, zero, huge): the loop condition is literally 'elapsed < max_time and (samples missing or elapsed < min_time)'; max_time has priority also when min_time > max_time; the executed round count is exactly the least one at which the condition fails; elapsed after a round is the latest end timestamp since the initial start, or with skip_ext_time the sum of the slowest timed sections counted >= 1 ns each; max_time = 0 runs nothing. The bench lab scripts generation/call/drop/read costs, compares rounds, per-thread timestamps and the position of the initial_start read, including the first benchmark of a process (cold calibration).",
+     level_text="Theorems for every history of clock readings (non-monotone, zero, huge): the loop condition is literally 'elapsed < max_time and (samples missing or elapsed < min_time)'; max_time has priority also when min_time > max_time; the executed round count is exactly the least one at which the condition fails; elapsed after a round is the latest end timestamp since the initial start, or with skip_ext_time the sum of the slowest timed sections counted >= 1 ns each; max_time = 0 runs nothing. The bench lab scripts generation/call/drop/read costs, compares rounds, per-thread timestamps and the position of the initial_start read, including the first benchmark of a process (cold calibration). Round 2-3: the zero cases (max_time = 0) carry a [C04] verdict of their own.",
      level_note="Trusted: Lean kernel; bench lab; real clocks are not modelled.", trusted=BENCH_TRUST)
 
 prop("C05", ["DivanModel.Props.C05"], BENCH_LABS,
-     level_text="Theorems for every sorted sample list and sample size: fastest/slowest = min/max sample / s, median = middle (mean of the two middle) / s, mean = total / (s*len), hence fastest <= median, mean <= slowest; figures are picked through the index of the sample that supplied the time; per-input counter = sum/s; zero samples give all-zero time statistics. The bench lab compares the complete Stats (integer picoseconds; allocation figures as exact IEEE doubles recomputed in software) and requires that computing statistics never panics.",
+     level_text="Theorems for every sorted sample list and sample size: fastest/slowest = min/max sample / s, median = middle (mean of the two middle) / s, mean = total / (s*len), hence fastest <= median, mean <= slowest; figures are picked through the index of the sample that supplied the time; per-input counter = sum/s; zero samples give all-zero time statistics. The bench lab compares the complete Stats (integer picoseconds; allocation figures as exact IEEE doubles recomputed in software) and requires that computing statistics never panics. Round 2-3: the four time figures are recomputed from the recorded samples' own timestamps in the trace (spec, not only model comparison); ties in duration are handled by accepting any member of the tied class.",
      level_note="Trusted: Lean kernel; bench lab; SoftFloat (round-to-nearest-even on non-negative normal doubles) is driver code, validated against the implementation on every case. Ties in duration between differently-tallied samples: sort_unstable's order among them is implementation-defined, so the model accepts the figures of any sample of the tied class (choosePicks) and nothing outside it.",
      trusted=BENCH_TRUST)
 
 prop("C19", ["DivanModel.Props.C19"], BENCH_LABS,
-     level_text="Theorems: a run without sample_size starts at 1; after j rounds at or below 100 whole multiples of the precision and one above, sizes were 1,2,...,2^j, the mode is collect(2^j), exactly the T samples of that round are held and the remaining counter is n-T; every tuning round keeps only its own samples; max_time stops tuning. The bench lab runs tuned benchmarks under three precisions (1, 250, 999 ps) with constant/growing costs and max_time cutting tuning short.",
+     level_text="Theorems: a run without sample_size starts at 1; after j rounds at or below 100 whole multiples of the precision and one above, sizes were 1,2,...,2^j, the mode is collect(2^j), exactly the T samples of that round are held and the remaining counter is n-T; every tuning round keeps only its own samples; max_time stops tuning. The bench lab runs tuned benchmarks under three precisions (1, 250, 999 ps) with constant/growing costs and max_time cutting tuning short. Round 2-3: specs on the implementation's own trace: all reported samples have the final size and iterations = samples x size; a run that ends while the replayed model is still tuning (no round beyond 100 x precision, max_time not reached) is reported; allocation data of discarded rounds must not surface.",
      level_note="Trusted: Lean kernel; bench lab; Timer::precision() is calibrated once per lab process on a uniform-step virtual clock (C11).", trusted=BENCH_TRUST)
 
 prop("C08", ["DivanModel.Props.C08"], BENCH_LABS + [lab("sbench-p250", 700, 15000, timeout=900)],
-     level_text="Theorems on a transition system with any number of threads, every interleaving and panics in any work phase: in every reachable state, while a thread is in its timed section all threads have finished generating and clearing and none has started dropping; with the repair (an unwinding thread keeps its barrier appointments) every non-final reachable state has a successor (no hang); a step of one thread changes no other thread. The bench lab runs T in 2..4 threads with scripted panics at (thread, call) points, a watchdog for hangs, per-thread allocation figures and the overlap conditions evaluated on the global event order; the sbench lab is the same lab built against the instrumented std (feature verif_shim) so that every Barrier::wait is an event in the per-thread traces: a complete sample must wait twice around the tally clear before its start timestamp and once after its end timestamp, and the model predicts the waits of unwinding threads (KeepAppointments).",
+     level_text="Theorems on a transition system with any number of threads, every interleaving and panics in any work phase: in every reachable state, while a thread is in its timed section all threads have finished generating and clearing and none has started dropping; with the repair (an unwinding thread keeps its barrier appointments) every non-final reachable state has a successor (no hang); a step of one thread changes no other thread. The bench lab runs T in 2..4 threads with scripted panics at (thread, call) points, a watchdog for hangs, per-thread allocation figures and the overlap conditions evaluated on the global event order; the sbench lab is the same lab built against the instrumented std (feature verif_shim) so that every Barrier::wait is an event in the per-thread traces: a complete sample must wait twice around the tally clear before its start timestamp and once after its end timestamp, and the model predicts the waits of unwinding threads (KeepAppointments). Round 2-3: a scripted panic of the function or the generator that was reached must end the run with a panic on the calling thread, in whichever round (spec); generator panics and per-thread clock skew are scripted.",
      level_note="Trusted: Lean kernel; bench lab; std::sync::Barrier semantics (release wait k only when all arrived) are the model's assumption; interleavings are those the OS scheduler produced (the theorem covers all, the lab samples).",
      trusted=BENCH_TRUST)
 
 prop("C20", ["DivanModel.Props.C20"], [lab("paint", 800, 20000), lab("reg", 1000, 30000)],
-     level_text="Exact model of tree_painter.rs (prefix, depth, growing column widths, separators and trailing-space rule, all row kinds) compared byte for byte with the real TreePainter on random operation sequences with every combination of counter / max-alloc / tally rows, non-ASCII and over-long names (paint lab), and with the real front end's output for random programs under list/test (exact text) and bench (cells replaced by class tokens) in the registry lab. Theorems: the prefix invariant (three columns per open non-top-level parent, restored by finish_parent, a bar exactly when the opened parent has later siblings, leaves never touch it); painting a tree by the run_tree walk emits exactly one line per node in depth-first order with the glyphs of its true position (each_node_once); the depth-annotated preorder of any forest parses back to it (parse_render).",
+     level_text="Exact model of tree_painter.rs (prefix, depth, growing column widths, separators and trailing-space rule, all row kinds) compared byte for byte with the real TreePainter on random operation sequences with every combination of counter / max-alloc / tally rows, non-ASCII and over-long names (paint lab), and with the real front end's output for random programs under list/test (exact text) and bench (cells replaced by class tokens) in the registry lab. Theorems: the prefix invariant (three columns per open non-top-level parent, restored by finish_parent, a bar exactly when the opened parent has later siblings, leaves never touch it); painting a tree by the run_tree walk emits exactly one line per node in depth-first order with the glyphs of its true position (each_node_once); the depth-annotated preorder of any forest parses back to it (parse_render). Round 2-3 specs on the printed text: glyphs and bars match the true position (treeGlyphsOk); every module / group / benchmark node above a shown case is printed exactly once; the rows are in the documented sorted depth-first order (applied when the uniqueness hypotheses of Props/C16Order hold on that tree); every computed allocation section and cell is printed.",
      level_note="Trusted: Lean kernel; labs. The serialised cells are produced by the lab from the real formatting functions (C18) and handed to the model; the character-level decoding of a line (glyphs -> depth) and the splitting of a row on ' | ' are not yet theorems (names must be 'clean': no box glyphs / double spaces). F9: under --list a benchmark with args is printed without its argument cases (recorded finding).",
      trusted=REG_TRUST)
 
 POOL_TRUST = ["pool lab: the real util/thread/pool.rs compiled against an instrumented std drop-in (hook H5, feature verif_shim): every atomic / channel / park / unpark / spawn operation is performed and logged under one global lock (a linearisation), with seeded delays around each and injected spurious park returns; what is exercised is divan's use of the primitives, not std's implementation of them"]
 
 prop("C06", ["DivanModel.Props.C06"], [lab("pool", 400, 20000, timeout=900)],
-     level_text="Theorems on a transition system parametric in all counts (any history of broadcasts, any number of workers, every interleaving): the 12-clause protocol invariant and the ghost invariant hold in every reachable state; when the caller reads the count as zero every worker handed the task has finished and decremented, nobody is inside the task block, every index ran exactly once, and - if the decrement is Release and the load Acquire - the end of every call happens-before the return; block reads are guarded by validity; threads are spawned only up to max(m, n) and reused. stepFn (the executable acceptor) is proved sound w.r.t. the relation, so every event log of the real pool that the driver accepts is a run of the verified protocol; atomics' observed values and Orderings are compared on the way. The lab also checks results by index, once-per-index, thread identity and visibility of plain writes on the run itself.",
+     level_text="Theorems on a transition system parametric in all counts (any history of broadcasts, any number of workers, every interleaving): the 12-clause protocol invariant and the ghost invariant hold in every reachable state; when the caller reads the count as zero every worker handed the task has finished and decremented, nobody is inside the task block, every index ran exactly once, and - if the decrement is Release and the load Acquire - the end of every call happens-before the return; block reads are guarded by validity; threads are spawned only up to max(m, n) and reused. stepFn (the executable acceptor) is proved sound w.r.t. the relation, so every event log of the real pool that the driver accepts is a run of the verified protocol; atomics' observed values and Orderings are compared on the way. The lab also checks results by index, once-per-index, thread identity and visibility of plain writes on the run itself. Round 2-3: broadcasts from two calling threads; an event-level spec that a worker unparks the caller after its decrement only through a handle cloned before it; every request runs in a process of its own, so a crash or an escaping panic of the real pool is an observation with a verdict.",
      level_note="Trusted: Lean kernel; pool lab and shim; C11 release/acquire as modelled by publication sets; weak-memory behaviours outside that fragment and the real park/unpark implementation are not exercised; interleavings are those the perturbed scheduler produced (the theorems cover all).",
      trusted=POOL_TRUST)
 
